@@ -103,6 +103,14 @@ def replay_one(rec, pattern, variant):
             for f in R.feedback[n0:]:
                 if f.category == "syntax" and f.label in ("syntax_error", "indentation_error"):
                     diags.append(("syntax", f.location.line, f.fields.get("lineno")))
+            if not ok and variant == "B":
+                # the instructor runs the section although it does not compile: the failure recorded by the sandbox is
+                # the same syntax error, on the same line of the original file
+                n1 = len(R.feedback)
+                SB.run(report=R)
+                for f in R.feedback[n1:]:
+                    if f.category == "runtime" or getattr(f, "tool", None) == "sandbox":
+                        diags.append(("runsyntax", f.location.line if f.location else None, "run"))
             if ok and variant == "C":
                 # functions defined in the presented section, then an instructor call that fails inside one
                 SB.run(report=R)
@@ -163,16 +171,16 @@ def replay_one(rec, pattern, variant):
             want = {(d["tool"], d["tok"]): d["reported"] for d in exp["diags"]}
             got_tools = set()
             for tool, line, ident in diags:
-                if tool == "syntax":
+                if tool in ("syntax", "runsyntax"):
                     # CPython reports the first unclosed parenthesis of the presented text
                     toks = [t for t in proj["main"] if t not in ("\n", "M", "F")]
                     tok = toks[0] if toks else "?"
                 else:
                     tok = str(ident).replace("undef_", "")
                 got_tools.add(tool)
-                if want.get((tool, tok)) != line:
+                if want.get(("syntax" if tool == "runsyntax" else tool, tok)) != line:
                     bad.append("line:%s" % tool)
-                    proj.setdefault("wrong_lines", []).append({"tool": tool, "tok": tok, "reported": line, "expected": want.get((tool, tok))})
+                    proj.setdefault("wrong_lines", []).append({"tool": tool, "tok": tok, "reported": line, "expected": want.get(("syntax" if tool == "runsyntax" else tool, tok))})
             expected_tools = {"B": {"syntax"}, "A": {"tifa", "runtime", "traceback"}, "C": {"runtime", "traceback"}, "D": set()}[variant]
             if exp["diags"] and not expected_tools <= got_tools:
                 bad.append("missing-diagnostic:%s" % sorted(expected_tools - got_tools))
